@@ -6,6 +6,9 @@
 //	storechild store <dir> <document.pb> <noclobber:true|false>
 //	storechild retrieve <dir> <identifier-hex>
 //	storechild storenil <dir>
+//	storechild script <dir> <file>     a whole history in ONE process: one JSON array per line, ["store", doc.pb,
+//	                                   "true|false"], ["retrieve", id-hex], ["storenil"], ["wipe"] (the directory is
+//	                                   removed), ["remove", entry-name]; one outcome line per command
 package main
 
 import (
@@ -14,7 +17,9 @@ import (
 	"encoding/json"
 	"fmt"
 	"os"
+	"path/filepath"
 	"runtime"
+	"strings"
 
 	"github.com/protobom/protobom/pkg/sbom"
 	"github.com/protobom/protobom/pkg/storage"
@@ -49,6 +54,10 @@ func main() {
 	}
 	fs := storage.NewFileSystem()
 	fs.Options.Path = os.Args[2]
+	if os.Args[1] == "script" {
+		runScript(os.Args[2], os.Args[3])
+		return
+	}
 	switch os.Args[1] {
 	case "store":
 		data, err := os.ReadFile(os.Args[3])
@@ -95,5 +104,85 @@ func main() {
 		emit(out{Outcome: "ok", Doc: base64.StdEncoding.EncodeToString(b)})
 	default:
 		os.Exit(2)
+	}
+}
+
+// runScript runs a history inside one process (state the library keeps between calls is then part of it);
+// every second store or retrieve goes through a freshly constructed backend value for the same directory.
+func runScript(dir, file string) {
+	raw, err := os.ReadFile(file)
+	if err != nil {
+		fmt.Fprintln(os.Stderr, err)
+		os.Exit(2)
+	}
+	shared := storage.NewFileSystem()
+	shared.Options.Path = dir
+	for i, line := range strings.Split(strings.TrimSpace(string(raw)), "\n") {
+		var cmd []string
+		if err := json.Unmarshal([]byte(line), &cmd); err != nil || len(cmd) == 0 {
+			fmt.Fprintln(os.Stderr, "bad script line", i)
+			os.Exit(2)
+		}
+		fs := shared
+		if i%2 == 1 {
+			fs = storage.NewFileSystem()
+			fs.Options.Path = dir
+		}
+		func() {
+			defer func() {
+				if r := recover(); r != nil {
+					emit(out{Outcome: "panic", Error: fmt.Sprint(r)})
+				}
+			}()
+			switch cmd[0] {
+			case "store":
+				data, err := os.ReadFile(cmd[1])
+				doc := &sbom.Document{}
+				if err != nil || proto.Unmarshal(data, doc) != nil {
+					fmt.Fprintln(os.Stderr, "cannot read", cmd[1])
+					os.Exit(2)
+				}
+				so := &storage.StoreOptions{NoClobber: cmd[2] == "true"}
+				if cmd[2] == "nil" {
+					so = nil // no options at all: the defaults apply
+				}
+				if err := fs.Store(doc, so); err != nil {
+					emit(out{Outcome: "err", Error: err.Error()})
+					return
+				}
+				emit(out{Outcome: "ok"})
+			case "storenil":
+				if err := fs.Store(nil, nil); err != nil {
+					emit(out{Outcome: "err", Error: err.Error()})
+					return
+				}
+				emit(out{Outcome: "ok"})
+			case "retrieve":
+				id, _ := hex.DecodeString(cmd[1])
+				doc, err := fs.Retrieve(string(id), nil)
+				if err != nil {
+					emit(out{Outcome: "err", Error: err.Error()})
+					return
+				}
+				if doc == nil {
+					emit(out{Outcome: "ok", Doc: "nil"})
+					return
+				}
+				b, err := proto.MarshalOptions{Deterministic: true}.Marshal(doc)
+				if err != nil {
+					emit(out{Outcome: "err", Error: "re-marshal: " + err.Error()})
+					return
+				}
+				emit(out{Outcome: "ok", Doc: base64.StdEncoding.EncodeToString(b)})
+			case "wipe":
+				_ = os.RemoveAll(dir)
+				emit(out{Outcome: "ok"})
+			case "remove":
+				_ = os.Remove(filepath.Join(dir, cmd[1]))
+				emit(out{Outcome: "ok"})
+			default:
+				os.Exit(2)
+			}
+		}()
 	}
 }
